@@ -1,9 +1,16 @@
-"""Per-property tables: which harnesses / queries decide which obligations."""
+"""Per-property tables: which harnesses / queries decide which obligations.
 
-FMT = "std::fmt::format -> empty String (error messages are not the subject)"
+A harness may serve several properties.  Every assertion message starts with the id of the
+property it belongs to ("C10:..."); when property P is run, failed assertions of other
+properties are ignored (they are reported by *their* check), and generic CBMC failures
+(panic, index out of bounds, overflow, unwinding) are attributed to the harness's
+`panic_prop` (default: the property being run).
+"""
+
+FMT = "std::fmt::format -> empty String via #[kani::stub] (error-message building is not the subject)"
 TRACING = "tracing/tracing-attributes replaced by a no-op stand-in in the scratch copy (logging = empty bodies)"
-
-PROPS = {}
+SEG = "segment harnesses: the statement run is cut verbatim out of the async function on every run (runner/segments.py); the values that arrived in the preceding .await are arbitrary well-typed values whose OUTER vector length is the one recv_vec_from enforces; inner lengths and Option patterns are unconstrained where stated"
+N2 = "segment harnesses are instantiated for n = 2 parties (own index 0, peer 1) unless stated"
 
 MODS = {
     "protocol": "mpc::protocol",
@@ -22,48 +29,252 @@ MODS = {
     "file_or_mem_buf": "utils::file_or_mem_buf",
 }
 
+ALL = {}
+
 
 def H(mod, name, **kw):
-    d = dict(name=name, full=f"{MODS[mod]}::__verif::{name}", mod=mod)
+    d = dict(name=name, full=f"{MODS[mod]}::__verif::{name}", mod=mod, tier="quick", timeout=900)
     d.update(kw)
+    ALL[name] = d
     return d
 
 
-PROPS["C18"] = dict(
+# ------------------------------------------------------------------------------------------ harness registry
+
+H("protocol", "build_probe", what="build probe", functions=[], bounds="-")
+
+# C18
+H("protocol", "c18_validate_ok_implies", timeout=1500,
+  what="validate() never panics; Ok => p_own,p_eval,p_out[i] < parties, p_out non-empty and duplicate-free, inputs.len()==input_regs[p_own], Circuit::validate()==Ok",
+  bounds="parties 0..=3, insts 0..=3 (all opcodes, all u32 registers/party/input), max_reg_count 0..=3, outputs 0..=2, and_ops any usize, p_own/p_eval/p_out[i] any usize, |p_out| 0..=3",
+  functions=["mpc::protocol::validate", "mpc::protocol::Context::new", "garble_lang::register_circuit::Circuit::validate"], panic_prop="C18")
+
+# C01
+H("protocol", "c01_batch_sizes", what="random_shares_batch_size / and_share_batch_size through the real Context::new: 0 iff total 0, <= total, >= min(total,1000), <= 9 chunks, single batch up to 1000, len*bucket*3 cannot overflow",
+  bounds="all input counts < 2^39 per party (2 parties), and_ops < 2^40", functions=["mpc::protocol::Context::new", "Context::random_shares_batch_size", "Context::and_share_batch_size", "mpc::faand::bucket_size"], panic_prop="C01")
+H("protocol", "c01_chunk_iter_small", what="chunk_size_iter: sizes in 1..=chunk, sum == total, all but last == chunk, count == ceil; chunk == 0 yields nothing",
+  bounds="total <= 24, chunk <= 8, unwind 26 (unwinding assertions on)", functions=["mpc::protocol::chunk_size_iter"], panic_prop="C01")
+H("protocol", "c01_chunk_iter_wide", tier="thorough", timeout=3600, what="chunk_size_iter for every (total, chunk) the engine can pass: same obligations",
+  bounds="total < 2^40, chunk > 0, total/chunk <= 10", functions=["mpc::protocol::chunk_size_iter"], panic_prop="C01")
+H("protocol", "c01_flush_pattern_matches_chunk_iter", what="producer flush pattern (full batches then remainder) == chunk_size_iter(and_ops, and_share_batch_size) for the real batch size",
+  bounds="and_ops < 2^40", functions=["mpc::protocol::chunk_size_iter", "Context::and_share_batch_size"], panic_prop="C01")
+
+# C02 / C03 / C05 segments of protocol.rs
+for v, t, to in (("regs01", "quick", 1200), ("regs11", "quick", 900), ("regs10", "thorough", 1200)):
+    H("protocol", f"c02_output_tail_n2_{v}", tier=t, timeout=to, needs_segment=["output_tail"],
+      what="output opening at an output party: Ok(bits) => every peer output share present, MAC verified under own key/delta, bit == value ^ own share ^ peer share, one bit per output position",
+      bounds=f"n=2, max_reg_count=2, output registers {v[-2]},{v[-1]} (duplicates / unsorted covered by the variants), all shares/MACs/keys/delta symbolic 128-bit, peer Option pattern free",
+      functions=["mpc::protocol::output (tail segment)"], panic_prop="C08")
+H("protocol", "c05_output_tail_non_output_party_gets_nothing", needs_segment=["output_tail"],
+  what="a party outside p_out returns an empty vector from the opening", bounds="n=2, p_out=[1], own index 0", functions=["mpc::protocol::output (tail segment)"], panic_prop="C08")
+for v, t in (("regs01", "quick"), ("regs11", "quick")):
+    H("protocol", f"c03_output_label_check_n2_{v}", tier=t, needs_segment=["output_label_check"],
+      what="evaluator's revealed (value,label): Ok => Some((b, label0 ^ b*delta)) for every output register, accepted value is the revealed one",
+      bounds=f"n=2, max_reg_count=2, output registers {v[-2]},{v[-1]}, labels/delta symbolic", functions=["mpc::protocol::output (label-check segment)"], panic_prop="C08")
+H("protocol", "c03_ip_mid_n2", needs_segment=["ip_mid"],
+  what="input sharing at the input owner: Ok => peer mask share present + MAC verified; masked == input ^ own share ^ peer share; foreign wires None",
+  bounds="n=2, 2 input instructions with symbolic owners, all values symbolic", functions=["mpc::protocol::input_processing (segment between scatter and broadcast)"], panic_prop="C08")
+H("protocol", "c03_ip_post_n2", needs_segment=["ip_post"],
+  what="ConflictingInputMask: a peer can fill only wires the party did not fill itself; merged == own-or-peer",
+  bounds="n=2, 3 registers, arbitrary Option patterns", functions=["mpc::protocol::input_processing (segment after broadcast)"], panic_prop="C08")
+H("protocol", "c05_ip_pre_n3", timeout=1500, needs_segment=["ip_pre"],
+  what="mask shares of an input wire are addressed to the wire's owner only (never self, never a third party, never for non-input registers); arbitrary Input placement does not panic",
+  bounds="n=3, own index 1, <=2 instructions of any opcode (Input position == out as Circuit::validate guarantees), 1..=2 input shares", functions=["mpc::protocol::input_processing (segment before scatter)"], panic_prop="C18")
+
+# faand segments
+H("faand", "c04_check_dvalue_tail_n2_b3", needs_segment=["check_dvalue_tail"],
+  what="d-value opening: Ok(d) => peer opened exactly as many d-bits and MACs as the bucket needs, every MAC verifies, d == own ^ peer; no inner length panics",
+  bounds="n=2, one bucket of 3 triples (2 d-values), peer inner vector lengths 0..=3 free", functions=["mpc::faand::check_dvalue (segment after scatter)"], panic_prop="C08")
+H("faand", "c04_beaver_tail_n2", timeout=1200, mem_gb=40, tier="thorough", needs_segment=["beaver_tail"],
+  what="Beaver derandomisation: Ok => peer's d/e MACs verified; share == c ^ d*beta ^ e*a (bit, MAC, key)", bounds="n=2, one triple", functions=["mpc::faand::beaver_aand (segment after scatter)"], panic_prop="C08")
+H("faand", "c07_fashare_3c_n2", needs_segment=["fashare_3c"],
+  what="aShare step 3c: no peer decommitment panics; claimed bits > 1 rejected; opens d0 or d1; d0^delta only for a claim whose MAC verifies under the own key",
+  bounds="n=2, RHO lowered to 2 inside the cut segment, peer inner lengths {0,1,16,17}", functions=["mpc::faand::fashare (step 3c segment)"], panic_prop="C08")
+H("faand", "c04_fashare_3d_n2", needs_segment=["fashare_3d"],
+  what="aShare step 3d: Ok => XOR of decommitted MACs == opened key sum for every check object", bounds="n=2, RHO lowered to 2 inside the cut segment, BLAKE3 verdicts arbitrary", functions=["mpc::faand::fashare (step 3d segment)"], panic_prop="C08")
+
+# C10 algebra
+for n, t, to, mem in ((2, "quick", 900, 20), (3, "quick", 900, 20), (4, "quick", 900, 20)):
+    H("data_types", f"c10_share_xor_n{n}", tier=t, timeout=to, what="&Share ^ &Share preserves mac_i[j] == key_j[i] ^ bit_i*delta_j for every ordered pair", bounds=f"n={n}, full 128-bit", functions=["<&Share as BitXor>::bitxor", "<&Auth as BitXor>::bitxor"], panic_prop="C10")
+H("data_types", "c10_auth_helpers_n3", what="xor_keys == XOR of keys; macs() in order; xor_key(i,d) changes exactly key i", bounds="n=3, i in 0..=3", functions=["Auth::xor_keys", "Auth::macs", "Auth::xor_key"], panic_prop="C10")
+H("data_types", "c10_typed_ops", what="typed XOR/AND operators and the MAC-check expression mac != key ^ (bit & delta)", bounds="full width", functions=["data_types operator impls"], panic_prop="C10")
+H("faand", "c10_bucket_size_table", what="bucket_size == 5 below 3100, 4 from 3100, 3 from 280000", bounds="all usize", functions=["mpc::faand::bucket_size"], panic_prop="C10")
+H("faand", "c10_combine_two_n2", timeout=1200, what="combine_two_leaky_ands as inductive step: valid triple + valid leaky triple + honest d => valid triple with AND relation and y == y1", bounds="n=2, all bits/MACs/keys/deltas symbolic", functions=["mpc::faand::combine_two_leaky_ands"], panic_prop="C10")
+H("faand", "c10_combine_two_n3", tier="thorough", timeout=2400, mem_gb=30, what="same, n=3", bounds="n=3", functions=["mpc::faand::combine_two_leaky_ands"], panic_prop="C10")
+H("faand", "c10_combine_bucket_fold_b3", what="combine_bucket fold order (d_vec[k-1] with element k); empty bucket => Err", bounds="n=2, bucket of 3", functions=["mpc::faand::combine_bucket", "mpc::faand::combine_two_leaky_ands"], panic_prop="C10")
+for ln, t in ((1, "thorough"), (63, "thorough"), (64, "quick"), (65, "quick"), (127, "thorough"), (128, "quick"), (129, "quick"), (130, "thorough"), (192, "thorough"), (193, "thorough"), (256, "thorough"), (257, "thorough")):
+    H("faand", f"c10_chunked_bool_{ln}", tier=t, timeout=1200, what="chunked_update_with_rbits::<bool>: element k visited once, in order, with bit k mod 128 of block k div 128", bounds=f"length {ln}, all element and coefficient bits symbolic", functions=["mpc::faand::chunked_update_with_rbits::<bool>"], panic_prop="C10")
+for ln, t in ((65, "thorough"), (129, "quick"), (193, "thorough")):
+    H("faand", f"c10_chunked_u128_{ln}", tier=t, timeout=1200, what="chunked_update_with_rbits::<u128>: same", bounds=f"length {ln}", functions=["mpc::faand::chunked_update_with_rbits::<u128>"], panic_prop="C10")
+
+# C20
+H("gf128", "c20_gf128_reduce_eq_bitserial", what="scalar::gf128_reduce == bit-serial reduction mod x^128+x^7+x^2+x+1", bounds="all 2^256 inputs", functions=["block::gf128::scalar::gf128_reduce"], panic_prop="C20")
+H("gf128", "c20_clmul64_basis_times_full", what="scalar::clmul64(x^i, y) == y << i and symmetric", bounds="all i < 64, all y", functions=["block::gf128::scalar::clmul64"], panic_prop="C20")
+H("gf128", "c20_clmul64_window16_times_full", tier="thorough", timeout=5400, what="scalar::clmul64 == schoolbook for x an arbitrary 16-bit window at any shift <= 48, y arbitrary", bounds="16-bit window of x, all y", functions=["block::gf128::scalar::clmul64"], panic_prop="C20")
+H("gf128", "c20_clmul128_karatsuba_basis_times_full", what="scalar::clmul128 recombination (clmul64 replaced by its definition): (x^i, b) -> b << i as 256 bits split into (low, high), and symmetric", bounds="all i < 128, all b", functions=["block::gf128::scalar::clmul128"], panic_prop="C20", stubs=["scalar::clmul64 -> schoolbook definition"])
+H("gf128", "c20_pclmul_clmul128_basis_times_full", what="PCLMUL path clmul::clmul128 (instruction replaced by Intel's definition): same basis x full obligation", bounds="all i < 128, all b", functions=["block::gf128::clmul::clmul128"], panic_prop="C20", stubs=["_mm_clmulepi64_si128 -> 64x64 schoolbook of the selected halves"])
+H("gf128", "c20_pclmul_reduce_eq_bitserial", what="PCLMUL path clmul::gf128_reduce == bit-serial reduction", bounds="all 2^256 inputs", functions=["block::gf128::clmul::gf128_reduce"], panic_prop="C20", stubs=["_mm_clmulepi64_si128 -> definition"])
+H("transpose", "c20_portable_transpose_16x16", what="portable::transpose_bitmatrix: out[c][r] == in[r][c]", bounds="every 16x16 input", functions=["transpose::portable::transpose_bitmatrix"], panic_prop="C20", stubs=["_mm_sll_epi64 -> Intel SDM model"])
+H("transpose", "c20_portable_transpose_16x24", tier="thorough", timeout=1800, what="same", bounds="every 16x24 input", functions=["transpose::portable::transpose_bitmatrix"], panic_prop="C20")
+H("transpose", "c20_portable_transpose_32x16", tier="thorough", timeout=1800, what="same", bounds="every 32x16 input", functions=["transpose::portable::transpose_bitmatrix"], panic_prop="C20")
+
+# C11
+for ln, t in ((0, "quick"), (1, "quick"), (7, "quick"), (8, "quick"), (9, "quick"), (15, "thorough"), (16, "quick"), (17, "quick"), (31, "thorough"), (33, "thorough"), (63, "thorough"), (64, "thorough")):
+    H("alsz", f"c11_pack_roundtrip_{ln}", tier=t, what="boolvec_to_u8vec/u8vec_to_boolvec: length ceil(len/8), bit i == choice i, zero padding, round trip", bounds=f"length {ln}, all bit patterns", functions=["ot_core::alsz::boolvec_to_u8vec", "ot_core::alsz::u8vec_to_boolvec"], panic_prop="C11")
+H("ot", "c11_block_u128_byte_order", what="block_to_u128(Block::from(x.to_be_bytes())) == x; XOR commutes; big-endian over block bytes", bounds="all 2^128 values", functions=["ot::block_to_u128", "Block::from<[u8;16]>"], panic_prop="C11")
+
+# C09
+for nm, what in (("c09_len_vec_opt_bool_mac", "Vec<Option<(bool,Mac)>>"), ("c09_len_vec_opt_bool_and_label", "Vec<Option<bool>>, Vec<Option<Label>>, Vec<Option<(bool,Label)>>"), ("c09_len_u128_family", "Vec<u128>, Vec<(bool,u128)>, Vec<(bool,bool,Mac,Mac)>, Vec<(bool,bool)>, Vec<u32>"), ("c09_len_dvalues_and_row", "Vec<(Vec<bool>,Vec<Mac>)>, (bool,Vec<Mac>,Label)"), ("c09_len_blocks_and_bytes", "Vec<Block>, Vec<(Block,Block,Block)>, Vec<Vec<u8>>"), ("c09_len_share_n2", "Vec<Share>")):
+    H("serde", nm, tier="thorough" if nm == "c09_len_blocks_and_bytes" else "quick", timeout=1200, what=f"serialize length of {what} is the same for all leaf values of one shape (self-composition) and equals 8 + sum of fixed widths", bounds="vector lengths <= 3, fixed Option pattern, all leaf values symbolic", functions=["utils::serde::serialize", "bincode::serde::encode_to_vec (legacy config)"], panic_prop="C09")
+H("garble", "c09_key_and_nonce_injective", what="AEAD (key, nonce) is fixed-size and injective in (label_x, label_y, w as u64, row); layout big-endian", bounds="full width", functions=["mpc::garble::key_and_nonce"], panic_prop="C09")
+
+# C08 decoders
+for nm, ty, n, t in (("c08_decode_vec_bool_12", "Vec<bool>", 12, "quick"), ("c08_decode_vec_u128_12", "Vec<u128>", 12, "quick"), ("c08_decode_vec_bool_u128_12", "Vec<(bool,u128)>", 12, "quick"), ("c08_decode_vec_opt_bool_12", "Vec<Option<bool>>", 12, "quick"), ("c08_decode_vec_opt_bool_mac_12", "Vec<Option<(bool,Mac)>>", 12, "quick"), ("c08_decode_vec_opt_label_12", "Vec<Option<Label>>", 12, "quick"), ("c08_decode_vec_vec_u8_18", "Vec<Vec<u8>>", 18, "thorough"), ("c08_decode_vec_block_12", "Vec<Block>", 12, "thorough"), ("c08_decode_row_25", "(bool,Vec<Mac>,Label)", 25, "thorough"), ("c08_decode_vec_dvalues_18", "Vec<(Vec<bool>,Vec<Mac>)>", 18, "thorough"), ("c08_decode_vec_bool_9", "Vec<bool>", 9, "quick"), ("c08_decode_vec_opt_bool_mac_9", "Vec<Option<(bool,Mac)>>", 9, "thorough"), ("c08_decode_vec_bool_8", "Vec<bool>", 8, "quick")):
+    H("serde", nm, tier=t, timeout=1500, what=f"deserialize::<{ty}> returns Ok or Err for every byte string: no panic/overflow/OOB, no failed allocation for any 64-bit length prefix", bounds=f"every byte string of length {n}", functions=["utils::serde::deserialize", "bincode::serde::decode_from_slice (legacy config)"], panic_prop="C08")
+
+
+def hs(*names):
+    return [ALL[n] for n in names]
+
+
+def by_prefix(*prefixes, tier=None):
+    return [h for n, h in ALL.items() if any(n.startswith(p) for p in prefixes) and (tier is None or h["tier"] == tier)]
+
+
+PROPS = {}
+
+PROPS["C01"] = dict(
     level="model_checking",
-    explanation="Bounded model checking (Kani/CBMC) of the real protocol::validate through the real Context::new over a fully symbolic circuit description and argument set.",
-    outside="parties<=3, input_regs[p]<=2, <=3 instructions, max_reg_count<=3, <=2 output regs, |inputs|<=3, |p_out|<=3; all indices full width. 'before sending any message' rests on _mpc calling validate before its first await (checked textually, see assumptions).",
-    assumptions=[FMT, TRACING],
-    level_text="Bounded model checking: for every circuit description and argument tuple inside the stated size bounds (all index values full width) CBMC proves that validate() cannot panic and that Ok implies every documented argument condition; counterexamples are replayed natively before being reported.",
-    level_note="Trusted: Kani's MIR->goto translation and CBMC; bounds on sizes (<=3 parties/instructions, <=2 outputs); format!() stubbed; logging no-op. Whether mpc() sends nothing before validate() is a textual check of _mpc.",
-    harnesses=[
-        H(
-            "protocol",
-            "c18_validate_ok_implies",
-            what="validate() never panics; Ok => p_own,p_eval,p_out[i] < parties, p_out non-empty, inputs.len()==input_regs[p_own], Circuit::validate()==Ok",
-            bounds="parties 0..=3, insts 0..=3 (all opcodes, all u32 registers), max_reg_count 0..=3, outputs 0..=2, and_ops any usize, p_own/p_eval/p_out[i] any usize",
-            functions=["mpc::protocol::validate", "mpc::protocol::Context::new", "garble_lang::register_circuit::Circuit::validate"],
-            timeout=1200,
-        ),
-    ],
+    level_text="Bounded model checking of the three pure functions all parties use to agree on batch boundaries (the part of C01 the suite never reaches: several batches): for all counts < 2^40 the batch sizes are positive/consistent, and chunk_size_iter yields exactly the sizes the producer-side flush pattern emits.",
+    level_note="Partial: decides multi-batch agreement only. Not covered: share propagation through the circuit, the 4-row table, output opening end-to-end, tmp_dir choices (interactive/async code, DESIGN §2). The flush pattern is re-stated in one harness (assumption).",
+    explanation="Kani/CBMC over Context::new + batch-size methods + chunk_size_iter with symbolic totals.",
+    outside="totals < 2^40; at most 10 chunks (implied by the batch-size lemma); small-value iterator class total<=24/chunk<=8.",
+    assumptions=[FMT, TRACING, "flush pattern 'push; if len >= batch flush; ...; if !empty flush' re-stated in c01_flush_pattern_matches_chunk_iter"],
+    harnesses=by_prefix("c01_"),
 )
 
+PROPS["C02"] = dict(
+    level="model_checking",
+    level_text="Bounded model checking of the acceptance decisions an honest output party takes on adversarial openings: the output-opening tail of output() and the d-value opening of the bucket-combination step, cut from the async functions on every run, with the peer's message arbitrary: Ok implies presence + valid MAC of every peer contribution and the exact output formula.",
+    level_note="Partial: n=2, one honest party's acceptance steps for output shares and d-values. Not covered: substitution semantics over whole adversarial runs, agreement between several honest output parties, OT/hash/AEAD. " + SEG,
+    explanation="Segment harnesses over output() tail and check_dvalue() tail.",
+    outside="n=2; max_reg_count=2; one bucket of 3; message *sequences* and cryptographic primitives are outside.",
+    assumptions=[FMT, TRACING, SEG, N2],
+    segments=["output_tail", "check_dvalue_tail"],
+    harnesses=hs("c02_output_tail_n2_regs01", "c02_output_tail_n2_regs11", "c02_output_tail_n2_regs10", "c04_check_dvalue_tail_n2_b3"),
+)
+
+PROPS["C03"] = dict(
+    level="model_checking",
+    level_text="Bounded model checking of the online-phase MAC / label checks at the consuming party (input mask shares, conflicting input masks, output-wire shares, evaluator's revealed value+label): for every forged field value the cut segment returns Err - Ok implies the authentication relation.",
+    level_note="Partial: n=2, per-check inductive step on cut segments. Not covered: AEAD tag check (symbolic ChaCha20-Poly1305), garbled-row share check inside evaluate() [see C08/C03 evaluate segment if listed], equivocation across recipients (broadcast). " + SEG,
+    explanation="Segment harnesses over input_processing() and output().",
+    outside="n=2; <=3 registers; cryptographic primitives outside.",
+    assumptions=[FMT, TRACING, SEG, N2],
+    segments=["ip_mid", "ip_post", "output_tail", "output_label_check"],
+    harnesses=hs("c03_ip_mid_n2", "c03_ip_post_n2", "c03_output_label_check_n2_regs01", "c03_output_label_check_n2_regs11", "c02_output_tail_n2_regs11", "c02_output_tail_n2_regs01"),
+)
+
+PROPS["C04"] = dict(
+    level="model_checking",
+    level_text="Bounded model checking of the detection branches of preprocessing at the receiving party (d-value MACs, aShare step 3c bit validity, aShare step 3d MAC-sum check, Beaver d/e MACs): Ok implies the checked relation, for every value a peer can send.",
+    level_note="Partial: detection branches only, n=2, cut segments with BLAKE3 verdicts arbitrary and the statistical parameter lowered to 2 inside the aShare segments. Not covered: commit-before-reveal and challenge-after-data orderings (message histories), KOS/aBit/LaAND checks, broadcast equivocation. " + SEG,
+    explanation="Segment harnesses over check_dvalue, fashare (3c, 3d), beaver_aand.",
+    outside="n=2; orderings over message histories and coin-toss reuse are outside the technique's reach.",
+    assumptions=[FMT, TRACING, SEG, N2, "open_commitment(..) -> arbitrary bool inside the fashare_3d segment (textual substitution)", "RHO shadowed by a local const 2 inside the fashare segments"],
+    segments=["check_dvalue_tail", "fashare_3c", "fashare_3d", "beaver_tail"],
+    harnesses=hs("c04_check_dvalue_tail_n2_b3", "c07_fashare_3c_n2", "c04_fashare_3d_n2", "c04_beaver_tail_n2"),
+)
+
+PROPS["C05"] = dict(
+    level="model_checking",
+    level_text="Bounded model checking of who is addressed with what: a non-output party gets an empty result from the opening; mask shares of input wires are addressed to the wire owner only.",
+    level_note="Partial: result side of output() and send side of input sharing. The recipients and payload of the two send rounds of output() are covered only if the output_sends harnesses are listed. " + SEG,
+    explanation="Segment harnesses over output() tail and input_processing() head.",
+    outside="n<=3; message order and the evaluator's 'lambda' round see harness list.",
+    assumptions=[FMT, TRACING, SEG],
+    segments=["output_tail", "ip_pre"],
+    harnesses=hs("c05_output_tail_non_output_party_gets_nothing", "c05_ip_pre_n3"),
+)
+
+PROPS["C07"] = dict(
+    level="model_checking",
+    level_text="Bounded model checking of the one place where an honest party opens a value that may be offset by its global key (aShare step 3c): the opened value is d0 ^ delta only for a claim whose MAC verifies under the own key.",
+    level_note="Partial: decides the opening rule of aShare step 3c (n=2) - which is violated on the pinned tree (known finding). Not covered: secrecy against pooled views over whole runs, label hygiene in garble/evaluate, OT masks. " + SEG,
+    explanation="Segment harness over fashare() step 3c.",
+    outside="information-flow over whole executions is outside the technique's reach.",
+    assumptions=[FMT, TRACING, SEG, N2, "RHO shadowed by a local const 2 inside the segment"],
+    segments=["fashare_3c"],
+    harnesses=hs("c07_fashare_3c_n2"),
+)
+
+PROPS["C08"] = dict(
+    level="model_checking",
+    level_text="Bounded model checking that hostile bytes and ill-shaped (well-typed) messages give Ok/Err, never a panic: the real bincode decoder for the engine's wire types over every byte string of the stated length (all 2^64 length prefixes, allocation sizes checked), and every cut protocol segment over arbitrary inner lengths / Option patterns.",
+    level_note="Partial: decoding layer + the panic-freedom of the cut segments. Not covered: vanishing peers, hangs, bounded time (async/concurrency). " + SEG,
+    explanation="Kani/CBMC on utils::serde::deserialize and on all segment harnesses (generic CBMC failures are attributed to C08).",
+    outside="byte strings of length 8, 9, 12 (18/25 in thorough); <= (N-8)/elem elements.",
+    assumptions=[FMT, TRACING, SEG],
+    segments=["check_dvalue_tail", "fashare_3c", "fashare_3d", "ip_mid", "ip_post", "output_tail", "output_label_check", "beaver_tail"],
+    harnesses=by_prefix("c08_") + hs("c04_check_dvalue_tail_n2_b3", "c07_fashare_3c_n2", "c04_fashare_3d_n2", "c03_ip_mid_n2", "c03_ip_post_n2", "c02_output_tail_n2_regs11", "c03_output_label_check_n2_regs01", "c04_beaver_tail_n2"),
+)
+
+PROPS["C09"] = dict(
+    level="model_checking",
+    level_text="2-safety by self-composition on the real serializer: for each wire type and shape the encoded length is identical for all secret leaf values and equals the fixed-width closed form; the AEAD key/nonce derivation is fixed-size and injective.",
+    level_note="Partial: encoding layer only. Not covered: which messages are sent in which order, which Option slots are Some, ciphertext length (symbolic AEAD), data-dependent early exits in async code.",
+    explanation="Kani/CBMC on utils::serde::serialize (bincode legacy) and garble::key_and_nonce.",
+    outside="vector lengths <= 3; fixed Option pattern per query.",
+    assumptions=[FMT, TRACING],
+    harnesses=by_prefix("c09_"),
+)
+
+PROPS["C10"] = dict(
+    level="model_checking",
+    level_text="Bounded model checking of the algebraic core of preprocessing with all bits, MACs, keys and global keys symbolic at full 128-bit width: share XOR, key helpers, bucket size table, the bucket-combination step as an inductive step (covers buckets of any size), the fold order, the bit/element pairing of the aBit linear-combination helper, Beaver reconstruction.",
+    level_note="Partial: algebraic core. Not covered: aBit/aShare/LaAND end to end (OT, hashes, async), trusted dealer, identical shared coins.",
+    explanation="Kani/CBMC on data_types operators, combine_two_leaky_ands, combine_bucket, bucket_size, chunked_update_with_rbits, beaver tail segment.",
+    outside="n <= 3 (4 for XOR); stated length classes of chunked_update_with_rbits.",
+    assumptions=[FMT, TRACING, "pairwise IT-MAC relation assumed on inputs (representation invariant)", SEG],
+    segments=["beaver_tail", "check_dvalue_tail"],
+    harnesses=by_prefix("c10_") + hs("c04_beaver_tail_n2", "c04_check_dvalue_tail_n2_b3", "c07_fashare_3c_n2"),
+)
+
+PROPS["C11"] = dict(
+    level="model_checking",
+    level_text="Bounded model checking of the length/packing/byte-order layer of OT extension: choice-bit packing for every residue mod 8, and the big-endian Block<->u128 convention shared with delta.",
+    level_note="Partial: packing and byte order. Not covered: the cryptographic correlation recv = x0 ^ b*delta (base OT, AES, TCCR), KOS check, session sequencing.",
+    explanation="Kani/CBMC on boolvec_to_u8vec/u8vec_to_boolvec/block_to_u128.",
+    outside="lengths {0,1,7,8,9,15,16,17,31,33,63,64}.",
+    assumptions=[FMT, TRACING],
+    harnesses=by_prefix("c11_"),
+)
+
+PROPS["C18"] = dict(
+    level="model_checking",
+    level_text="Bounded model checking of the real validate() through the real Context::new over a fully symbolic circuit description and argument tuple: no panic, and Ok implies every documented argument condition; plus panic-freedom of input sharing for misplaced Input instructions.",
+    level_note="Trusted: Kani's MIR->goto translation and CBMC; size bounds (<=3 parties/instructions, <=2 outputs), all index values full width. 'before sending any message' rests on _mpc calling validate before its first await (textual check recorded in evidence).",
+    explanation="Kani/CBMC on protocol::validate + input_processing head segment.",
+    outside="parties<=3, input_regs[p]<=2, <=3 instructions, max_reg_count<=3, <=2 output regs, |inputs|<=3, |p_out|<=3.",
+    assumptions=[FMT, TRACING, SEG],
+    segments=["ip_pre"],
+    harnesses=hs("c18_validate_ok_implies", "c05_ip_pre_n3"),
+)
+
+PROPS["C20"] = dict(
+    level="model_checking",
+    level_text="Bounded/full-width model checking of the GF(2) arithmetic and the portable transposition against their definitions: reduction over all 2^256 inputs on both paths, carry-less multiply on basis x full (complete for a bilinear map) on both paths, portable transpose for every input of the stated shapes.",
+    level_note="Partial: AES hash/PRG equal to AES-128 definitions NOT covered (symbolic AES); AVX2 butterfly not covered; transposition only shapes 16x16 (+16x24, 32x16 thorough). SIMD instruction replaced by Intel's definition.",
+    explanation="Kani/CBMC on block::gf128::{scalar,clmul} and transpose::portable.",
+    outside="transpose shapes 16x16/16x24/32x16; clmul64 full correctness only via basis x full + 16-bit windows (thorough) unless the E2 lemma run is listed.",
+    assumptions=[FMT, TRACING, "_mm_clmulepi64_si128 and _mm_sll_epi64 replaced by their Intel SDM definitions", "bilinearity of the recombination is a structural (paper) argument: XOR/shift of bilinear products"],
+    harnesses=by_prefix("c20_"),
+)
 
 # ---------------------------------------------------------------------------------------------
-# Properties not claimed, with the one-line reason (DESIGN.md §3). Entries for claimed
-# properties are ignored by gen_manifest.
+# Properties not claimed, with the one-line reason (DESIGN.md §3).
 NOT_APPLICABLE = {
-    "C01": "under construction in this session (batch/chunk agreement harnesses)",
-    "C02": "every acceptance decision is inline in async functions that Kani 0.68 cannot compile (async closures) and that exhaust memory after normalisation; quantifies over adversarial message sequences through OT, hashing and AEAD",
-    "C03": "same code as C02; the AEAD-tag obligation needs symbolic ChaCha20-Poly1305",
-    "C04": "detection branches live in async preprocessing functions; commit-before-reveal and challenge-after-data are orderings over message histories of concurrent parties, and BLAKE3/ChaCha20 would have to be symbolic",
-    "C05": "the whole property is the send pattern of output(), which contains async closures (Kani ICE) and did not finish after manual normalisation",
     "C06": "a statement about the distribution of the transcript over coin tosses and freshness across executions; a solver treats the RNG as unconstrained environment and cannot express balance or reuse",
-    "C07": "secrecy against pooled adversarial views over whole runs (information flow through OT/hash/AEAD outputs)",
-    "C08": "under construction in this session (decoder harnesses)",
-    "C09": "under construction in this session (encoding-length harnesses)",
-    "C10": "under construction in this session (share algebra harnesses)",
-    "C11": "under construction in this session (packing / byte-order harnesses)",
     "C12": "a property of interleavings of several parties' futures; Kani has no concurrency model and the join/scatter layer alone exhausts memory",
     "C13": "polytune-server-core is a tokio actor (mpsc/oneshot/Notify/Semaphore, spawn, Garble compiler); Kani models neither tokio's channels in feasible size nor any interleaving",
     "C14": "same actor code; the handlers cannot be executed symbolically (tokio send().await on both paths)",
@@ -71,5 +282,4 @@ NOT_APPLICABLE = {
     "C16": "same actor code; needs the Garble compiler and RPC delivery orders",
     "C17": "same actor code; semaphore permits across tokio tasks and failure injection into RPCs",
     "C19": "the file variant is tempfile + BufWriter/BufReader over one shared OS file offset with seek in Drop; Kani has no file-system model",
-    "C20": "under construction in this session (GF(2) arithmetic and transposition harnesses)",
 }
